@@ -651,6 +651,7 @@ Definition chk_C13_ev (k : trk) (o : op) (e : event) : bool :=
       | Some since => Nat.leb (k_pollno k - since) (starve_bound k)
       | None => true
       end
+  | ERet RetRunaway => false    (* the call did not return within the harness's budget of child / source / upstream polls *)
   | _ => true
   end.
 Definition chk_C13_end (k : trk) (o : op) (evs : list event) : bool :=
